@@ -103,3 +103,50 @@ refactor("c04-cancel-if-let", ["C04", "C03"], (OB, """        let cancelled_orde
         match cancelled_order {
             Some(order_entry) => {
                 if Status::Active == order_entry.order.status {"""))
+
+# ------------------------------------------------------------------------------- C02
+mutant("c02-remove-vol-total-dropped", "C02", (SIDE, "        self.volumes.get_mut(&price).unwrap().0 -= vol;\n        self.vol -= vol;", "        self.volumes.get_mut(&price).unwrap().0 -= vol;"), expect="lockstep")
+mutant("c02-remove-vol-whole-order", "C02", (OB, "self.ask_side.remove_vol(match_order.key.1, trade_vol);", "self.ask_side.remove_vol(match_order.key.1, match_order.order.vol);"), expect="accounting")
+mutant("c02-touch-vol-from-ask", "C02", (OB, "let (bid_touch_vol, bid_touch_orders) = self.bid_best_vol_and_orders();", "let (bid_touch_vol, bid_touch_orders) = self.ask_best_vol_and_orders();"), expect="views")
+mutant("c02-bid-levels-add", "C02", (OB, "start.wrapping_sub(Price::try_from(i).unwrap() * self.tick_size)", "start.wrapping_add(Price::try_from(i).unwrap() * self.tick_size)"), expect="level-walk")
+mutant("c02-insert-before-matching", "C02", (OB, """        if self.trading {
+            self.match_ask(order_entry);
+        }
+        if order_entry.order.status != Status::Filled {
+            let key: OrderKey = (Side::Ask, order_entry.key.1, self.t);""", """        if self.trading && order_entry.order.vol > 1 {
+            self.match_ask(order_entry);
+        }
+        if order_entry.order.status != Status::Filled {
+            let key: OrderKey = (Side::Ask, order_entry.key.1, self.t);"""), expect="never-crossed")
+mutant("c02-count-not-decremented", "C02", (SIDE, "        vol_at_price.1 -= 1;\n        if vol_at_price.1 == 0 {", "        if vol_at_price.1 == 1 {"), expect="lockstep")
+mutant("c02-cancel-removes-start-vol", "C02", (OB, """                            self.bid_side
+                                .remove_order(order_entry.key, order_entry.order.vol);
+                        }
+                        Side::Ask => {""", """                            self.bid_side
+                                .remove_order(order_entry.key, order_entry.order.start_vol);
+                        }
+                        Side::Ask => {"""), expect="accounting")
+mutant("c02-mid-price-underflow", "C02", (OB, "0.5 * (f64::from(bid) + f64::from(ask))", "f64::from(bid) + 0.5 * f64::from(ask - bid)"), expect="query-totality")
+mutant("c02-ask-vol-from-bid-side", "C02", (OB, "    pub fn ask_vol(&self) -> Vol {\n        self.ask_side.vol()", "    pub fn ask_vol(&self) -> Vol {\n        self.bid_side.vol()"), expect="views")
+mutant("c02-best-vol-count", "C02", (SIDE, "            Some((_, v)) => v.0,\n            None => 0,", "            Some((_, v)) => v.1,\n            None => 0,"), expect="lockstep")
+mutant("c02-replace-no-removal-bid", "C02", (OB, """            Side::Bid => self
+                .bid_side
+                .remove_order(order_entry.key, order_entry.order.vol),
+            Side::Ask => self
+                .ask_side
+                .remove_order(order_entry.key, order_entry.order.vol),
+        }
+
+        order_entry.order.vol = new_vol;""", """            Side::Bid => self
+                .bid_side
+                .remove_vol(order_entry.key.1, 0),
+            Side::Ask => self
+                .ask_side
+                .remove_order(order_entry.key, order_entry.order.vol),
+        }
+
+        order_entry.order.vol = new_vol;"""), expect="accounting")
+refactor("c02-getter-local", "C02", (OB, "    pub fn bid_vol(&self) -> Vol {\n        self.bid_side.vol()\n    }", "    pub fn bid_vol(&self) -> Vol {\n        let side = &self.bid_side;\n        side.vol()\n    }"))
+refactor("c02-level1-reorder", "C02", (OB, """        let (bid_touch_vol, bid_touch_orders) = self.bid_best_vol_and_orders();
+        let (ask_touch_vol, ask_touch_orders) = self.ask_best_vol_and_orders();""", """        let (ask_touch_vol, ask_touch_orders) = self.ask_best_vol_and_orders();
+        let (bid_touch_vol, bid_touch_orders) = self.bid_best_vol_and_orders();"""))
